@@ -16,6 +16,7 @@ type ChoicePoint struct {
 	Site   string
 	Arity  int // number of alternatives (menu size); the default is alternative 0
 	Choice int
+	Free   bool // a non-default answer here does not count as a deviation (e.g. the running thread has finished)
 }
 
 // Exec is the state of the execution in progress.
@@ -64,9 +65,13 @@ func choose(site string, arity int) int {
 			c = 0
 		}
 	}
-	e.Points = append(e.Points, ChoicePoint{Site: site, Arity: arity, Choice: c})
+	e.Points = append(e.Points, ChoicePoint{Site: site, Arity: arity, Choice: c, Free: freeNext})
+	freeNext = false
 	return c
 }
+
+// freeNext marks the next recorded point as free of deviation cost.
+var freeNext bool
 
 // menu(n) is the number of permutations offered for n elements: all n! for n <= 4; otherwise identity, reverse,
 // "move element i to the front" for i = 1..n-1, and "swap the last two".
@@ -260,9 +265,6 @@ func (x *Explorer) explore(prefix []int, deviations int) {
 	if x.Visit != nil {
 		x.Visit(choices, e.Points, obs)
 	}
-	if deviations >= x.Bound {
-		return
-	}
 	for i := len(prefix); i < len(e.Points); i++ {
 		if deviations == 0 && x.NShards > 1 && i%x.NShards != x.Shard {
 			continue
@@ -270,9 +272,16 @@ func (x *Explorer) explore(prefix []int, deviations int) {
 		if deviations > 0 && x.SecondLevel != nil && !x.SecondLevel(e.Points[i].Site) {
 			continue
 		}
+		cost := 1
+		if e.Points[i].Free {
+			cost = 0
+		}
+		if deviations+cost > x.Bound {
+			continue
+		}
 		for alt := 1; alt < e.Points[i].Arity; alt++ {
 			next := append(append([]int{}, choices[:i]...), alt)
-			x.explore(next, deviations+1)
+			x.explore(next, deviations+cost)
 			if x.Capped {
 				return
 			}
